@@ -162,6 +162,17 @@ fn handle(line: &str) -> Result<String, String> {
                 Err(e) => Err(e.join("\u{1e}")),
             }
         }
+        "project" => {
+            // transpile_dir(dir, Some(src), Some(target)) on a directory prepared by the caller
+            let dir = unhex(f[1]);
+            let src = unhex(f[2]);
+            let target = unhex(f[3]);
+            let args = mamba::Arguments { annotate: f[4] == "1" };
+            match mamba::transpile_dir(std::path::Path::new(&dir), Some(src.as_str()), Some(target.as_str()), &args) {
+                Ok(p) => Ok(p.display().to_string()),
+                Err(e) => Err(e.join("\u{1e}")),
+            }
+        }
         "tokens" => {
             let src = unhex(f[1]);
             match lx::tokenize(&src) {
